@@ -320,6 +320,7 @@ func contentParts(doc Doc, p Page, k int, tight bool) [][]byte {
 		toks = append(toks, "BT", "/"+doc.Fonts[ln.Font].Res, fmtNum(ln.Size), "Tf", fmtNum(ln.X), fmtNum(ln.Y), "Td",
 			string(serString(Str{ln.Bytes, ln.Hex})), "Tj", "ET")
 	}
+	toks = append(toks, strings.Fields(p.Trailer)...)
 	if k > len(toks) {
 		k = len(toks)
 	}
